@@ -33,6 +33,13 @@ int EvalExpression::run(AsmContext *asm_context, Var &answer, bool is_paren)
     if (token_type == TOKEN_EOL || token_type == TOKEN_EOF)
     {
       tokens_push(asm_context, token, token_type);
+
+      if (is_paren == true)
+      {
+        print_error(asm_context, "Missing ')' in expression");
+        return -1;
+      }
+
       break;
     }
 
